@@ -114,7 +114,8 @@ def w_image(pid, tier, seed, job):
                 if half:
                     chn = 0 if sp[2] == "L" else 1
                     want = b"".join(full[pair][2][i:i + 2] for i in range(2 * chn, len(full[pair][2]), 4))
-                    ctx.require("an unpaired half carries a prefix of its channel of the complete pair", c2, want[:len(pcm)] == pcm, {"len": len(pcm)})
+                    k = min(len(want), len(pcm))   # a half exported alone may be longer than the pair (the pair stops with its shorter half)
+                    ctx.require("an unpaired half carries the same audio as its channel of the complete pair", c2, want[:k] == pcm[:k], {"len": len(pcm), "pair_channel": len(want)})
                 continue
             ctx.require("reported PCM is a prefix of the complete image's PCM for the same path (no foreign bytes)", c2,
                         full[p][2][:len(pcm)] == pcm and ch == full[p][3], {"len": len(pcm), "full": len(full[p][2])})
